@@ -68,11 +68,13 @@ def _setup(S, selection=None):
 
 def _model(S, theory):
     # r: two-sided bounds; z: lower bound only; x: Gaussian (unbounded); alpha: two-sided
-    pr = Uniform(0.2, 1.0, guess=S.real('guess_r', lo=0.2, hi=1.0), name='r')
+    pr = Uniform(0.2, 1.0, guess=0.5, name='r')
     pz = Uniform(1.0, np.inf, guess=5.0, name='z')
     px = Gaussian(0.25, 0.5, name='x')
-    model = AlphaModel(Sphere(n=1.59, r=pr, center=(px, 0.4, pz)), alpha=1.0, theory=theory)
-    return model, dict(r=pr, z=pz, x=px)
+    # a coordinate left of the origin: bounded prior with a negative (symbolic) guess
+    py = Uniform(-3.0, -1.0, guess=-2.0, name='y')
+    model = AlphaModel(Sphere(n=1.59, r=pr, center=(px, py, pz)), alpha=1.0, theory=theory)
+    return model, dict(r=pr, z=pz, x=px, y=py)
 
 
 def _returned(S, parinfo_or_start, priors, names, limits):
@@ -91,7 +93,7 @@ def _returned(S, parinfo_or_start, priors, names, limits):
 
 @obligation('C13.nmpfit', functions=FUNCS, max_paths=64, timeout_s=120, nvalid=2, cost=3,
             stubs=['nmpfit.mpfit := nondeterministic stub honouring its limits', 'raw_fields := arbitrary field per pixel'],
-            bounds='AlphaModel with r ~ Uniform(0.2,1) (symbolic guess), z ~ Uniform(1,inf), x ~ Gaussian; '
+            bounds='AlphaModel with r ~ Uniform(0.2,1), y ~ Uniform(-3,-1) (negative guess), z ~ Uniform(1,inf), x ~ Gaussian; '
                    '1x2 symbolic data: start vector, limits, bounds of the result, names, best-fit '
                    'hologram and log-probability, residual vector, strategy reusable')
 def nmpfit_ob(S):
@@ -110,7 +112,20 @@ def nmpfit_ob(S):
         seen['resid_at_start'] = resid
         limits = [(d['limits'][0] if d['limited'][0] else None, d['limits'][1] if d['limited'][1] else None)
                   for d in parinfo]
-        params = _returned(S, parinfo, pri, names, limits)
+        # mpfit's precondition: limits enclose the start value; if the caller violates it, the stub
+        # gives the start vector back (mpfit itself quits with status 0) instead of assuming the impossible
+        consistent = True
+        for d, (lo, hi) in zip(parinfo, limits):
+            if lo is not None and not bool(lo <= d['value']):
+                consistent = False
+            if hi is not None and not bool(d['value'] <= hi):
+                consistent = False
+        if not consistent:
+            seen['precondition_violated'] = True
+            params = list(start)
+        else:
+            params = _returned(S, parinfo, pri, names, limits)
+        seen['opt'] = dict(zip(names, params))
         return types.SimpleNamespace(params=params, status=1, perror=None, niter=1)
     S.patch(nm_mod.nmpfit, 'mpfit', fake_mpfit, both=True)
     strat = NmpfitStrategy()
@@ -127,13 +142,18 @@ def nmpfit_ob(S):
             S.claim_eq(f'{nm}.lower_limit', p.unscale(d['limits'][0]), p.lower_bound)
         if has_hi:
             S.claim_eq(f'{nm}.upper_limit', p.unscale(d['limits'][1]), p.upper_bound)
+        # the optimiser's contract needs lower limit <= start <= upper limit in ITS (scaled) units
+        if has_lo:
+            S.claim_le(f'{nm}.scaled_lower_limit_below_start', d['limits'][0], d['value'])
+        if has_hi:
+            S.claim_le(f'{nm}.scaled_start_below_upper_limit', d['value'], d['limits'][1])
     # the result
     S.claim('names_are_the_models', list(result.parameters.keys()) == names)
     vals = result._parameters
     S.observe('fitted', np.array(vals, dtype=object if S.sym else float))
     for nm, v in zip(names, vals):
         p = pri[nm]
-        S.claim_eq(f'{nm}.reported_is_unscaled_optimum', v, p.unscale(S.real(f'opt_{nm}')))
+        S.claim_eq(f'{nm}.reported_is_unscaled_optimum', v, p.unscale(seen['opt'][nm]))
         if hasattr(p, 'lower_bound') and not core._is_inf(p.lower_bound):
             S.claim_ge(f'{nm}.within_lower_bound', v, p.lower_bound)
         if hasattr(p, 'upper_bound') and not core._is_inf(p.upper_bound):
@@ -168,7 +188,7 @@ def nmpfit_ob(S):
 @obligation('C13.scipy_subset', functions=FUNCS, max_paths=64, timeout_s=120, nvalid=2, cost=3,
             stubs=['scipy.optimize.least_squares := nondeterministic stub', 'numpy.random.choice := prescribed selection',
                    'raw_fields := arbitrary field per pixel position'],
-            bounds='LeastSquaresScipyStrategy(npixels=3) on 2x2 symbolic data (selection [3,0,2]): start vector is the '
+            bounds='LeastSquaresScipyStrategy(npixels=3) on a 2x2 crop (origin shifted) of symbolic data (selection [3,0,2]): start vector is the '
                    'scaled guess, reported values are the unscaled optimum, names, best-fit hologram on the ORIGINAL '
                    'grid equals the forward model, log-probability evaluated on the subset')
 def scipy_subset(S):
@@ -179,7 +199,9 @@ def scipy_subset(S):
     model = AlphaModel(Sphere(n=1.59, r=pr, center=(px, 0.4, 3.0)), alpha=1.0, theory=theory)
     pri = dict(r=pr, x=px)
     names = list(model._parameter_names)
-    data, dvals, noise = _data(S, (2, 2))
+    full, fvals, noise = _data(S, (3, 2))
+    data = full.isel(x=slice(1, 3))          # a crop: the grid does not start at the origin
+    dvals = fvals[1:3, :]
     seen = {}
 
     def fake_least_squares(fun, x0, **kw):
@@ -203,7 +225,8 @@ def scipy_subset(S):
     # best-fit hologram lives on the original grid
     holo = result.hologram
     full = model.forward(result.parameters, data)
-    S.claim('hologram_on_original_grid', holo.sizes.get('x') == 2 and holo.sizes.get('y') == 2)
+    S.claim('hologram_on_original_grid', holo.sizes.get('x') == 2 and holo.sizes.get('y') == 2 and
+            bool(np.allclose(holo.x.values, data.x.values)) and bool(np.allclose(holo.y.values, data.y.values)))
     S.claim_eq('hologram_is_forward_model', _flatvals(holo).reshape(-1), _flatvals(full).reshape(-1))
     # residuals at the start are those of the selected pixels
     g = [pri[nm].guess for nm in names]
@@ -212,3 +235,30 @@ def scipy_subset(S):
     sel = [3, 0, 2]
     for j, i in enumerate(sel):
         S.claim_eq(f'residual[{j}]', resid[j], (f0[i] - dvals.reshape(-1)[i]) / noise)
+
+
+@obligation('C13.scipy_bounds', functions=FUNCS, max_paths=16, timeout_s=60, nvalid=2,
+            stubs=['scipy.optimize.least_squares := nondeterministic stub (it is given no limits)',
+                   'raw_fields := arbitrary field per pixel'],
+            bounds='LeastSquaresScipyStrategy, one parameter r ~ Uniform(0.2, 1), 1x1 symbolic data: the reported '
+                   'parameter lies within its prior\'s bounds')
+def scipy_bounds(S):
+    _setup(S)
+    theory = make_stub_theory(S, tagger=_tag)
+    pr = Uniform(0.2, 1.0, guess=0.5, name='r')
+    model = AlphaModel(Sphere(n=1.59, r=pr, center=(0.1, 0.4, 3.0)), alpha=1.0, theory=theory)
+    data, dvals, noise = _data(S, (1, 1))
+    seen = {}
+
+    def fake_least_squares(fun, x0, **kw):
+        seen['kw'] = kw
+        return types.SimpleNamespace(x=[S.real('opt_r', lo=0.05, hi=3.0)], success=True, jac=np.eye(1), status=1)
+    S.patch(sp_mod, 'least_squares', fake_least_squares, both=True)
+    result = LeastSquaresScipyStrategy().fit(model, data)
+    r_val = result._parameters[0]
+    S.observe('r', r_val)
+    # nothing in the Python layer enforces this: the optimiser is given no limits and the prior residual is
+    # discarded (np.append result unused) - see known_findings.json
+    S.claim('limits_or_bounds_handed_to_optimiser', 'bounds' in seen['kw'])
+    S.claim_ge('r.within_prior_bounds.lower', r_val, 0.2)
+    S.claim_le('r.within_prior_bounds.upper', r_val, 1.0)
